@@ -346,10 +346,19 @@ class Universe:
         return names
 
     def cid_of(self, c: type) -> str:
+        """id of a class; classes of identical shape (module, names, kind, fields) share the first id,
+        as the model identifies a class with its shape"""
         for cid in self.order:
             if self.cls[cid] is c:
-                return cid
+                sig = self._sig(cid)
+                for other in self.order:
+                    if self._sig(other) == sig:
+                        return other
         return "?" + c.__module__ + "." + c.__name__
+
+    def _sig(self, cid: str) -> str:
+        parts = self.cls_line(cid).split("|")
+        return "|".join(parts[2:6] + parts[7:])
 
     def cls_line(self, cid: str) -> str:
         s = self.specs[cid]
@@ -983,6 +992,7 @@ def run_scenario(I: dict, sc: dict, tr: Trace) -> None:
 
 def _run_scenario(I: dict, sc: dict, tr: Trace, U: Universe, mrng: Any) -> None:
     E, JS, T, R, SE = I["E"], I["JS"], I["T"], I["R"], I["SE"]
+    tr.op("reset", "ok")
     for cid in U.order:
         tr.op(U.cls_line(cid), "ok")
         tr.count("class-kind:" + {"p": "plain", "e": "event", "s": "stop"}[U.kind(cid)])
